@@ -495,6 +495,12 @@ class C14(FaultMonitorMixin, BaseMonitor):
             if entries:
                 e = r.choice(entries)
                 bad = {"obj": e["obj"], "attr": e["attr"], "value": e["value"]}
+                if e["fault"] in ("list_with_wrong_class", "list_with_non_object") and r.random() < 0.6:
+                    wrong = e["value"][1][-1] if e["fault"] == "list_with_wrong_class" else 3.5
+                    m = r.choice(["append", "insert", "extend", "iadd"] + (
+                        ["setitem"] if spec["objs"][e["obj"]]["attrs"][e["attr"]][1] else []))
+                    return {"op": "bad_list", "obj": e["obj"], "attr": e["attr"], "method": m, "bad": wrong,
+                            "fault": e["fault"] + ":" + m, "strong": True, "i": i}
                 if r.random() < 0.35:
                     other = opgen.gen_numeric(r, spec, self.cfg, set(S.closure(spec)), i)
                     if other is not None and other["obj"] != e["obj"]:
